@@ -31,6 +31,18 @@ func VerifC11KeyAgreement() {
 	toServer := vf.Bool("node-sends-to-server")
 	if vf.Bool("receiver-remembers-previous-key") {
 		pCert, pNode, pSrv := vf.Int("previous-cert-key", 2, 3), vf.Int("previous-node-enc-key", 0, 1), vf.Int("previous-server-enc-key", 4, 5)
+		if vf.Bool("an-even-older-key-pair-was-recorded-before") { // recording replaces whatever was remembered before, key ID included
+			oCert := vf.Int("older-cert-key", 2, 3)
+			if toServer {
+				older := &NodeInformation{CertificatePublicKeyPkix: vf.Pkix(oCert), EncryptionPublicKeyBytes: vf.X25519Pub(1), EncryptionPublicKeyType: KEYTYPE_X25519,
+					ServerEncryptionPrivateKeyBytes: pkcs(4), ServerEncryptionPrivateKeyType: KEYTYPE_X25519}
+				vf.Assert("older-key-recorded", server.SetPreviousEncryptionKey(older) == nil)
+			} else {
+				older := &NodeCredentials{CertificatePublicKeyPkix: vf.Pkix(oCert), EncryptionPrivateKeyBytes: pkcs(1), EncryptionPrivateKeyType: KEYTYPE_X25519,
+					ServerEncryptionPublicKeyBytes: vf.X25519Pub(4), ServerEncryptionPublicKeyType: KEYTYPE_X25519}
+				vf.Assert("older-key-recorded", node.SetPreviousEncryptionKey(older) == nil)
+			}
+		}
 		if toServer {
 			old := &NodeInformation{CertificatePublicKeyPkix: vf.Pkix(pCert), EncryptionPublicKeyBytes: vf.X25519Pub(pNode), EncryptionPublicKeyType: KEYTYPE_X25519,
 				ServerEncryptionPrivateKeyBytes: pkcs(pSrv), ServerEncryptionPrivateKeyType: KEYTYPE_X25519}
